@@ -198,8 +198,12 @@ def check_helpers(ctx, L, rng):
     else:
         s = '%srgb(0x%x, %d, 0x%x)' % (prefix, rr, gg, bb)
     judge(s, probe(L, s), exps, 'rgb-string')
-    s24 = rng.choice(['%srgb(0x%x)', '%srgb(%d)', '%srgb( 0x%X )', '%srgb([%d])']) % (prefix, v24)
+    s24 = rng.choice(['%srgb(0x%x)', '%srgb(%d)', '%srgb( 0x%X )', '%srgb([%d])', '%srgb(0%d)', '%srgb(0x0%x)']) % (prefix, v24)
     judge(s24, probe(L, s24), exp24, 'rgb-string-24bit')
+    # decimal values may carry leading zeros ("decimal or 0x-hex")
+    sz = '%srgb(%s,%s,%s)' % (prefix, rng.choice(['%03d', '0%d', '%d']) % rr, rng.choice(['%03d', '00%d']) % gg,
+                            rng.choice(['%d', '%04d']) % bb)
+    judge(sz, probe(L, sz), exps, 'rgb-string-leading-zeros')
     # color256
     n = rng.choice([0, 1, 7, 8, 15, 16, 214, 231, 232, 254, 255, rng.randint(0, 255)])
     fn256 = {'fg': rng.choice([AF.fg_color256, AF.fg_colour256, AF.color256, AF.colour256]),
@@ -209,7 +213,8 @@ def check_helpers(ctx, L, rng):
     judge('%s_color256(%d)' % (comp, n), probe(L, fn256(n)), e256, 'color256-helper')
     judge('color256(%d,component=%s)' % (n, comp), probe(L, AF.color256(n, ctype)), e256, 'color256-helper')
     word = rng.choice(['color', 'colour'])
-    s = rng.choice(['%s%s256(%d)', '%s%s256( %d )', '%s%s256([%d])', '%s%s256(0x%x)', '%s%s256((0x%X))']) % (prefix, word, n)
+    s = rng.choice(['%s%s256(%d)', '%s%s256( %d )', '%s%s256([%d])', '%s%s256(0x%x)', '%s%s256((0x%X))', '%s%s256(%03d)',
+                    '%s%s256(0%d)']) % (prefix, word, n)
     judge(s, probe(L, s), e256, 'color256-string')
     # helper results are valid + parsable
     for st in fn(r, g, b) + fn256(n):
@@ -223,7 +228,9 @@ NEG = [
     ('negative-int', [-1, -255, [-1], (1, -2), '-1', '1;-2'], ValueError),
     ('malformed-rgb', ['rgb()', 'rgb(1,2)', 'rgb(1,2,3,4)', 'rgb(T)', 'ul_rgb(T)', 'rgb(-1,0,0)', 'rgb(ff,0,0)',
                        'rgb(1;2;3)', 'color256()', 'color256(1,2)', 'colour256(x)', 'bg_rgb(1,,2)', 'rgb(0x)',
-                       'xx_rgb(1,2,3)', 'rgb 1,2,3', 'fg_color256(-1)'], ValueError),
+                       'xx_rgb(1,2,3)', 'rgb 1,2,3', 'fg_color256(-1)', 'rgb(0b11,0,0)', 'color256(0b1)', 'rgb(0o7,1,2)',
+                       'rgb(1_0,2,3)', 'color256(1_0)', 'rgb(1.0,2,3)', 'rgb(+1,2,3)', 'color256(0xg)', 'rgb(0x1,0x,3)',
+                       'rgb(\u0663,1,2)'], ValueError),
     ('unsupported-type', [[1.5], [None], [b'1'], [{}], ['bold', 1.5], (None,), [[{}]], [object]], TypeError),
 ]
 
@@ -332,6 +339,27 @@ def check_mixture(ctx, L, rng, names):
         ctx.violation('mixture-string-differs', {'members': picks, 'form': s, 'expected': exp,
                                                  'outcome': repr(got)[:300] if isinstance(got, Exception) else got[0]},
                       mech='mixture-string')
+    # one ';' string mixing names, integer codes and rgb()/color256() directives, in order
+    parts = []
+    for n, m in zip(picks, members):
+        codes = ';'.join(str(x) for x in m.ansi_settings)
+        parts.append(rng.choice([n.lower(), codes, codes, mixed_case(rng, n)]))
+    extra = rng.choice([None, ('rgb(1,2,3)', ['38;2;1;2;3']), ('bg_color256(7)', ['48;5;7']), ('4', ['4']), ('0', ['0'])])
+    exp2 = list(exp)
+    if extra:
+        k = rng.randint(0, len(parts))
+        parts.insert(k, extra[0])
+        # position of the inserted directive's settings
+        pos = sum(len(mm.ansi_settings) for mm in members[:k])
+        exp2[pos:pos] = extra[1]
+    s2 = ';'.join(parts)
+    got = probe(L, s2)
+    ctx.ev('mixture')
+    ctx.nontriv(('mixstr', s2))
+    if isinstance(got, Exception) or got[0] != exp2:
+        ctx.violation('mixed-string-differs', {'form': s2, 'expected': exp2,
+                                               'outcome': repr(got)[:300] if isinstance(got, Exception) else got[0]},
+                      mech='mixture-string-codes-and-names')
 
 
 def contracts(ctx, mon):
